@@ -32,6 +32,7 @@ type HistItem struct {
 
 type ItemResult struct {
 	Verdict  string   `json:"verdict"` // parse-error | rejected | accepted
+	Late     []string `json:"leftover_prints,omitempty"` // printed by this item's leftovers after its run was over
 	Prints   []string `json:"prints"`  // sorted
 	Complete bool     `json:"complete"`
 	Panics   int      `json:"panics"`
@@ -112,6 +113,7 @@ func runItem(t *testing.T, it HistItem) ItemResult {
 	default:
 		r.Verdict = "accepted"
 		r.Prints = res.PrintMultiset()
+		r.Late = res.LeftoverPrints
 		r.Complete = res.Complete()
 		r.Panics = len(res.Errors)
 		r.LogHash = res.LogHash
@@ -198,8 +200,17 @@ func init() {
 			items := DrawHistory(rec)
 			o := w.Out
 			var fail *Violation
+			var pendingLate []string
 			for i, it := range items {
 				got := runItem(w.T, it)
+				// what an earlier item's leftovers print after that item was over lands, in production,
+				// in the output of whatever runs next: it is charged to this item
+				if len(pendingLate) > 0 && got.Verdict == "accepted" {
+					got.Prints = append(append([]string{}, got.Prints...), pendingLate...)
+					sort.Strings(got.Prints)
+					w.Out.Extra["items_charged_with_leftover_output"]++
+				}
+				pendingLate = got.Late
 				if got.Trouble != "" {
 					o.Trouble = append(o.Trouble, got.Trouble+" | "+trunc(it.Text, 1500))
 					return
@@ -289,8 +300,15 @@ func init() {
 		if len(items) == 0 {
 			items = DrawHistory(&replayChooser{Draws: rf.Draws})
 		}
+		var pendingLate []string
 		for i, it := range items {
+			it.Cfg.KeepLeftovers = true
 			got := runItem(w.T, it)
+			if len(pendingLate) > 0 && got.Verdict == "accepted" {
+				got.Prints = append(append([]string{}, got.Prints...), pendingLate...)
+				sort.Strings(got.Prints)
+			}
+			pendingLate = got.Late
 			want, err := w.isolated(it)
 			if err != nil {
 				w.Out.Trouble = append(w.Out.Trouble, err.Error())
